@@ -75,7 +75,10 @@ Inductive write20 :=
 | WEnable (r : rev)         (* ebl.EnableKernel(r): kernel.efi -> r *)
 | WEnableTry (r : rev)      (* ebl.EnableTryKernel(r) *)
 | WDisableTry               (* ebl.DisableTryKernel() *)
-| WModeenv (m : menv).      (* Modeenv.Write(): atomic replacement of the file *)
+| WModeenv (m : menv)       (* Modeenv.Write(): atomic replacement of the file *)
+| WEnv (s : status) (k : rev) (t : option rev).
+   (* bootloaders without kernel links (envRefExtractedKernelBootloaderKernelState): one bl.SetBootVars call carrying
+      kernel_status, snap_kernel, snap_try_kernel *)
 
 Definition apply20 (w : write20) (s : st20) : st20 :=
   match w with
@@ -84,6 +87,7 @@ Definition apply20 (w : write20) (s : st20) : st20 :=
   | WEnableTry r => {| ks := ks s; kl := kl s; tkl := Some r; me := me s |}
   | WDisableTry => {| ks := ks s; kl := kl s; tkl := None; me := me s |}
   | WModeenv m => {| ks := ks s; kl := kl s; tkl := tkl s; me := m |}
+  | WEnv x k t => {| ks := x; kl := k; tkl := t; me := me s |}
   end.
 
 Definition set_ck (m : menv) (l : list rev) : menv :=
@@ -136,16 +140,59 @@ Definition mark20 (s : st20) : list write20 :=
   [WDisableTry] ++
   modeenv_write (me s) m'.
 
+(* ---- the same operations on a bootloader that keeps snap_kernel / snap_try_kernel in its environment
+   (envRefExtractedKernelBootloaderKernelState; piboot, u-boot on UC20). kl/tkl then stand for snap_kernel /
+   snap_try_kernel. The modeenv part (bootState20Kernel.setNext / markSuccessful) is the same code. *)
+Definition orev_is_none (o : option rev) : bool := match o with None => true | _ => false end.
+
+Definition set_next_kernel_env (fx : bool) (s : st20) (r : rev) (notry : bool) : list write20 :=
+  let cur := kl s in
+  let reboot := negb (N.eqb r cur) in
+  let next_status := if reboot && negb notry then STry else SDef in
+  let ck' := if notry then (if fx && reboot then [cur; r] else [r])
+             else if reboot then m_ck (me s) ++ [r] else m_ck (me s) in
+  modeenv_write (me s) (set_ck (me s) ck') ++
+  (* commonStateCommitUpdate: write if kernel_status changes or the snap differs from the current one *)
+  (if negb (status_eqb next_status (ks s)) || reboot
+   then (if notry then [WEnv SDef (if reboot then r else cur) (tkl s)]                (* setNextKernelNoTry *)
+         else [WEnv next_status cur (if reboot then Some r else tkl s)])              (* setNextKernel *)
+   else []).
+
+Definition mark20_env (s : st20) : list write20 :=
+  let ksn := mark_kernel_sn s in
+  let m' := {| m_base := mark_base_sn (me s); m_try := None; m_bst := SDef; m_ck := [ksn] |} in
+  (* markSuccessfulKernel: one SetBootVars if anything changes *)
+  (if negb (status_eqb SDef (ks s)) || negb (N.eqb ksn (kl s)) || negb (orev_is_none (tkl s))
+   then [WEnv SDef ksn None] else []) ++
+  modeenv_write (me s) m'.
+
+(* configurations of UC20+ *)
+Inductive conf :=
+| Grub      (* kernel.efi / try-kernel.efi links, grub.cfg handles kernel_status *)
+| EnvNS.    (* environment variables only, firmware cannot run scripts (piboot): the initramfs updates the status *)
+
 Inductive op20 :=
 | SetK (r : rev) (notry : bool)   (* Participant(kernel r).SetNextBoot({BootWithoutTry: notry}) *)
 | SetB (r : rev) (notry : bool)   (* Participant(base r).SetNextBoot(...) *)
 | Mark.                           (* MarkBootSuccessful *)
 
-Definition writes20 (fx : bool) (o : op20) (s : st20) : list write20 :=
-  match o with
-  | SetK r nt => set_next_kernel fx s r nt
-  | SetB r nt => set_next_base s r nt
-  | Mark => mark20 s
+Definition writes20 (cf : conf) (fx : bool) (o : op20) (s : st20) : list write20 :=
+  match o, cf with
+  | SetK r nt, Grub => set_next_kernel fx s r nt
+  | SetK r nt, EnvNS => set_next_kernel_env fx s r nt
+  | SetB r nt, _ => set_next_base s r nt
+  | Mark, Grub => mark20 s
+  | Mark, EnvNS => mark20_env s
+  end.
+
+(* ------------------------------------------------------------------------------------------------------------ *)
+(* UC20 with a bootloader that cannot run scripts (piboot): boot/initramfs.go updateNotScriptableBootloaderStatus *)
+(* arguments: kernel_status in the bootloader configuration, kernel_status= on the kernel command line;
+   result: None = nothing written, Some s = SetBootVarsFromInitramfs({kernel_status: s}) *)
+Definition not_scriptable_update (conf cmdline : status) : option status :=
+  match conf with
+  | SDef => None
+  | _ => Some (match cmdline, conf with STrying, STry => STrying | _, _ => SDef end)
   end.
 
 (* firmware: grub.cfg. Result: new state and what is chainloaded *)
@@ -160,6 +207,28 @@ Definition firmware20 (s : st20) : st20 * fwres :=
        | None => (s', if fb && GrubKernelStatus.fallback_entry_reboots then FwReboot else FwStuck)
        end
   else (s', FwImage (kl s)).
+
+(* firmware that cannot run scripts (Raspberry Pi + piboot), together with the first thing the initramfs does
+   (InitramfsRunModeUpdateBootloaderVars -> updateNotScriptableBootloaderStatus). The firmware itself is NOT in the
+   repository; modelled: with the one-shot tryboot flag tb (snapd passes it on an orderly reboot only while
+   kernel_status is try, piboot.GetRebootArguments) it boots the try configuration (snap_try_kernel, kernel_status=trying
+   on the command line), and falls back to a normal boot when that cannot be started; without the flag it boots
+   snap_kernel with no kernel_status on the command line. It writes nothing itself, so a power loss between the
+   firmware and the status update is the same as one before the firmware. *)
+Definition ns_status (s : st20) (cmdline : status) : st20 :=
+  {| ks := match not_scriptable_update (ks s) cmdline with Some x => x | None => ks s end;
+     kl := kl s; tkl := tkl s; me := me s |}.
+
+Definition firmware_ns (tb : bool) (s : st20) : st20 * fwres :=
+  if tb && status_eqb (ks s) STry
+  then match tkl s with
+       | Some t => (ns_status s STrying, FwImage t)
+       | None => (s, FwReboot)
+       end
+  else (ns_status s SDef, FwImage (kl s)).
+
+Definition firmware_c (cf : conf) (tb : bool) (s : st20) : st20 * fwres :=
+  match cf with Grub => firmware20 s | EnvNS => firmware_ns tb s end.
 
 (* initramfs, base: bootState20Base.selectAndCommitSnapInitramfsMount (genericInitramfsSelectSnap with expected
    status try); returns the modeenv to write and the base to mount. Snap files are assumed present. *)
@@ -202,7 +271,7 @@ Inductive ev20 :=
 | EOp (o : op20)        (* snapd starts an operation (reads the state, plans the writes) *)
 | EWrite                (* the next planned write reaches the disk *)
 | EReset                (* power loss, crash, failed boot, or orderly reboot *)
-| EFirmware
+| EFirmware (tb : bool)   (* tb: the one-shot tryboot flag (only the not-scriptable firmware looks at it) *)
 | EInitramfs.
 
 (* ghost state: gk/gb = revisions that booted and were marked successful (initially the installed ones);
@@ -217,7 +286,10 @@ Definition with_st (m : mach) (s : st20) (p : phase) : mach :=
 
 (* the window of the finding: a kernel-switching undo has written the modeenv and not yet moved kernel.efi *)
 Definition in_window (m : mach) : bool :=
-  match cur m, pend m with Some (SetK _ true), WEnable _ :: _ => true | _, _ => false end.
+  match cur m, pend m with
+  | Some (SetK _ true), WEnable _ :: _ | Some (SetK _ true), WEnv _ _ _ :: _ => true
+  | _, _ => false
+  end.
 
 (* NoTry (undo) is only ever asked for a revision that was known-good before *)
 Definition op_enabled (m : mach) (o : op20) : bool :=
@@ -244,8 +316,8 @@ Definition fin_ab (o : op20) (s : st20) (a : list rev) : list rev :=
   | SetK _ _ => a
   end.
 
-Definition start_op (fx : bool) (m : mach) (o : op20) (k b : rev) : mach :=
-  let ws := writes20 fx o (st m) in
+Definition start_op (cf : conf) (fx : bool) (m : mach) (o : op20) (k b : rev) : mach :=
+  let ws := writes20 cf fx o (st m) in
   let ak1 := match o with SetK r false => if N.eqb r (kl (st m)) then ak m else r :: ak m | _ => ak m end in
   let ab1 := match o with SetB r false => if N.eqb r (m_base (me (st m))) then ab m else r :: ab m | _ => ab m end in
   let none := match ws with [] => true | _ => false end in
@@ -256,11 +328,11 @@ Definition start_op (fx : bool) (m : mach) (o : op20) (k b : rev) : mach :=
      ab := if none then fin_ab o (st m) ab1 else ab1 |}.
 
 (* fx: the repaired setNext; g: power loss is assumed not to fall into the window *)
-Definition step20 (fx g : bool) (m : mach) (e : ev20) : mach :=
+Definition step20 (cf : conf) (fx g : bool) (m : mach) (e : ev20) : mach :=
   match e, ph m with
   | EOp o, PhRun k b =>
       match pend m with
-      | [] => if op_enabled m o then start_op fx m o k b else m
+      | [] => if op_enabled m o then start_op cf fx m o k b else m
       | _ => m
       end
   | EWrite, PhRun k b =>
@@ -275,8 +347,8 @@ Definition step20 (fx g : bool) (m : mach) (e : ev20) : mach :=
              ab := match cur m with Some o => if done then fin_ab o s' (ab m) else ab m | None => ab m end |}
       end
   | EReset, _ => if g && in_window m then m else with_st m (st m) PhOff
-  | EFirmware, PhOff =>
-      let '(s', r) := firmware20 (st m) in
+  | EFirmware tb, PhOff =>
+      let '(s', r) := firmware_c cf tb (st m) in
       with_st m s' (match r with FwImage i => PhFw i | FwReboot => PhOff | FwStuck => PhDead end)
   | EInitramfs, PhFw _ =>
       let '(s', r, b) := initramfs20 (st m) in
@@ -284,23 +356,13 @@ Definition step20 (fx g : bool) (m : mach) (e : ev20) : mach :=
   | _, _ => m
   end.
 
-Definition run20 (fx g : bool) (m : mach) (evs : list ev20) : mach := fold_left (step20 fx g) evs m.
+Definition run20 (cf : conf) (fx g : bool) (m : mach) (evs : list ev20) : mach := fold_left (step20 cf fx g) evs m.
 
 (* a freshly installed system *)
 Definition init20 (k b : rev) : mach :=
   {| st := {| ks := SDef; kl := k; tkl := None;
               me := {| m_base := b; m_try := None; m_bst := SDef; m_ck := [k] |} |};
      ph := PhOff; pend := []; cur := None; gk := [k]; gb := [b]; ak := []; ab := [] |}.
-
-(* ------------------------------------------------------------------------------------------------------------ *)
-(* UC20 with a bootloader that cannot run scripts (piboot): boot/initramfs.go updateNotScriptableBootloaderStatus *)
-(* arguments: kernel_status in the bootloader configuration, kernel_status= on the kernel command line;
-   result: None = nothing written, Some s = SetBootVarsFromInitramfs({kernel_status: s}) *)
-Definition not_scriptable_update (conf cmdline : status) : option status :=
-  match conf with
-  | SDef => None
-  | _ => Some (match cmdline, conf with STrying, STry => STrying | _, _ => SDef end)
-  end.
 
 (* ------------------------------------------------------------------------------------------------------------ *)
 (* UC16/18: bootloader variables only (boot/bootstate16.go). One SetBootVars call per operation.                  *)
@@ -373,7 +435,9 @@ Definition trial16 (s : st16) (good r : rev) (nt : bool) (a : list rev) : list r
   else if nt then [] else [r].
 
 (* an operation is a single atomic write: a power loss falls before or after it *)
-Definition step16 (m : mach16) (e : ev16) : mach16 :=
+(* fw: the gadget's boot script (firmware16 is the reading of the protocol comment used for the correspondence;
+   the theorems hold for every script that satisfies the contract BootProofs.fw16_ok) *)
+Definition step16 (fw : st16 -> st16 * rev * rev) (m : mach16) (e : ev16) : mach16 :=
   match e, ph16 m with
   | E16Op o, P16Run k c =>
       if op16_enabled m o then
@@ -392,12 +456,13 @@ Definition step16 (m : mach16) (e : ev16) : mach16 :=
   | E16Reset, _ =>
       {| s16 := s16 m; ph16 := P16Off; gk16 := gk16 m; gc16 := gc16 m; ak16 := ak16 m; ac16 := ac16 m |}
   | E16Firmware, P16Off =>
-      let '(s', k, c) := firmware16 (s16 m) in
+      let '(s', k, c) := fw (s16 m) in
       {| s16 := s'; ph16 := P16Run k c; gk16 := gk16 m; gc16 := gc16 m; ak16 := ak16 m; ac16 := ac16 m |}
   | _, _ => m
   end.
 
-Definition run16 (m : mach16) (evs : list ev16) : mach16 := fold_left step16 evs m.
+Definition run16 (fw : st16 -> st16 * rev * rev) (m : mach16) (evs : list ev16) : mach16 :=
+  fold_left (step16 fw) evs m.
 
 Definition init16 (k c : rev) : mach16 :=
   {| s16 := {| mode := SDef; sk := k; stk := None; sc := c; stc := None |}; ph16 := P16Off;
@@ -409,15 +474,15 @@ Definition init16 (k c : rev) : mach16 :=
 (* what the driver does: whole operations, optionally cut by a power loss after `cut` writes, and (re)boots *)
 Inductive act20 :=
 | AOp (o : op20) (cut : option nat)
-| AFw                (* reset, firmware runs, then the boot dies before the initramfs *)
-| ABoot.             (* reset, then up to three firmware+initramfs rounds *)
+| AFw (tb : bool)    (* reset, firmware runs, then the boot dies before the initramfs *)
+| ABoot (tb : bool).  (* reset, then up to three firmware+initramfs rounds; tb: tryboot flag of the first one *)
 
 Definition expand20 (a : act20) : list ev20 :=
   match a with
   | AOp o None => EOp o :: repeat EWrite 8
   | AOp o (Some k) => EOp o :: repeat EWrite k ++ [EReset]
-  | AFw => [EReset; EFirmware]
-  | ABoot => [EReset; EFirmware; EInitramfs; EFirmware; EInitramfs; EFirmware; EInitramfs]
+  | AFw tb => [EReset; EFirmware tb]
+  | ABoot tb => [EReset; EFirmware tb; EInitramfs; EFirmware false; EInitramfs; EFirmware false; EInitramfs]
   end.
 
 (* trace items, printed identically by the driver from the real code's behaviour *)
@@ -438,28 +503,28 @@ Definition item20_eqb (a b : item20) : bool :=
   | _, _ => false
   end.
 
-Definition trace_ev (fx : bool) (m : mach) (e : ev20) : mach * list item20 :=
-  let m' := step20 fx false m e in
+Definition trace_ev (cf : conf) (fx : bool) (m : mach) (e : ev20) : mach * list item20 :=
+  let m' := step20 cf fx false m e in
   (m',
    match e, ph m with
    | EWrite, PhRun _ _ => match pend m with [] => [] | _ => [OS (st m')] end
-   | EFirmware, PhOff =>
+   | EFirmware _, PhOff =>
        OS (st m') :: match ph m' with PhOff => [OReboot] | PhDead => [ODead] | _ => [] end
    | EInitramfs, PhFw _ =>
        OS (st m') :: match ph m' with PhRun k b => [OBoot k b] | PhOff => [OReboot] | _ => [ODead] end
    | _, _ => []
    end).
 
-Fixpoint trace_evs (fx : bool) (m : mach) (evs : list ev20) : mach * list item20 :=
+Fixpoint trace_evs (cf : conf) (fx : bool) (m : mach) (evs : list ev20) : mach * list item20 :=
   match evs with
   | [] => (m, [])
-  | e :: r => let '(m1, t1) := trace_ev fx m e in let '(m2, t2) := trace_evs fx m1 r in (m2, t1 ++ t2)
+  | e :: r => let '(m1, t1) := trace_ev cf fx m e in let '(m2, t2) := trace_evs cf fx m1 r in (m2, t1 ++ t2)
   end.
 
-Fixpoint trace_acts (fx : bool) (m : mach) (i : N) (acts : list act20) : list item20 :=
+Fixpoint trace_acts (cf : conf) (fx : bool) (m : mach) (i : N) (acts : list act20) : list item20 :=
   match acts with
   | [] => []
-  | a :: r => let '(m', t) := trace_evs fx m (expand20 a) in OAct i :: t ++ trace_acts fx m' (i + 1) r
+  | a :: r => let '(m', t) := trace_evs cf fx m (expand20 a) in OAct i :: t ++ trace_acts cf fx m' (i + 1) r
   end.
 
 (* stutter removal: a write that does not change the state is not an observable *)
@@ -493,16 +558,16 @@ Definition item16_eqb (a b : item16) : bool :=
 Fixpoint trace_acts16 (m : mach16) (i : N) (acts : list act16) : list item16 :=
   match acts with
   | [] => []
-  | A16Op o true :: r => O16Act i :: trace_acts16 (step16 m E16Reset) (i + 1) r
+  | A16Op o true :: r => O16Act i :: trace_acts16 (step16 firmware16 m E16Reset) (i + 1) r
   | A16Op o false :: r =>
-      let m' := step16 m (E16Op o) in
+      let m' := step16 firmware16 m (E16Op o) in
       O16Act i ::
       (match ph16 m with P16Run _ _ => if op16_enabled m o then
                                         match write16 o (s16 m) with Some s' => [O16S s'] | None => [] end else []
                     | _ => [] end) ++
       trace_acts16 m' (i + 1) r
   | A16Boot :: r =>
-      let m' := step16 (step16 m E16Reset) E16Firmware in
+      let m' := step16 firmware16 (step16 firmware16 m E16Reset) E16Firmware in
       O16Act i :: O16S (s16 m') ::
       (match ph16 m' with P16Run k c => [O16Boot k c] | _ => [] end) ++ trace_acts16 m' (i + 1) r
   end.
@@ -558,8 +623,8 @@ Definition mon_item (acts : list act20) (m : mon) (it : item20) : mon :=
           | SetK r nt => mon_set m (tk m) (tb m) (req full nt (lk m) r (rk m)) (rb m) bk' bb' false false false (bad m)
           | SetB r nt => mon_set m (tk m) (tb m) (rk m) (req full nt (lb m) r (rb m)) bk' bb' false false false (bad m)
           end
-      | Some AFw => mon_set m (tk m) (tb m) (rk m) (rb m) None None (trial_k m) (trial_b m) false (bad m)
-      | Some ABoot => mon_set m (tk m) (tb m) (rk m) (rb m) None None (trial_k m) (trial_b m) true (bad m)
+      | Some (AFw _) => mon_set m (tk m) (tb m) (rk m) (rb m) None None (trial_k m) (trial_b m) false (bad m)
+      | Some (ABoot _) => mon_set m (tk m) (tb m) (rk m) (rb m) None None (trial_k m) (trial_b m) true (bad m)
       | None => m
       end
   | OS s =>
@@ -627,7 +692,7 @@ Definition monitor16 (k0 c0 : rev) (acts : list act16) (obs : list item16) : boo
 
 (* ---- cases *)
 Inductive case :=
-| Case20 (k0 b0 : rev) (acts : list act20) (obs : list item20)
+| Case20 (cf : conf) (k0 b0 : rev) (acts : list act20) (obs : list item20)
 | Case16 (k0 c0 : rev) (acts : list act16) (obs : list item16)
 | CaseNS (conf cmdline : status) (wrote : option status).   (* updateNotScriptableBootloaderStatus *)
 
@@ -636,18 +701,18 @@ Definition ostatus_eqb (a b : option status) : bool :=
 
 Definition mismatch (c : case) : bool :=
   match c with
-  | Case20 k0 b0 acts obs =>
+  | Case20 cf k0 b0 acts obs =>
       let m0 := with_st (init20 k0 b0) (st (init20 k0 b0)) (PhRun k0 b0) in
-      negb (items_eqb (dedup (trace_acts false m0 0 acts)) (dedup obs))
+      negb (items_eqb (dedup (trace_acts cf false m0 0 acts)) (dedup obs))
   | Case16 k0 c0 acts obs =>
-      let m0 := step16 (init16 k0 c0) E16Firmware in
+      let m0 := step16 firmware16 (init16 k0 c0) E16Firmware in
       negb (items16_eqb (trace_acts16 m0 0 acts) obs)
   | CaseNS conf cl w => negb (ostatus_eqb (not_scriptable_update conf cl) w)
   end.
 
 Definition monitor_fail (c : case) : bool :=
   match c with
-  | Case20 k0 b0 acts obs => monitor20 k0 b0 acts obs
+  | Case20 _ k0 b0 acts obs => monitor20 k0 b0 acts obs
   | Case16 k0 c0 acts obs => monitor16 k0 c0 acts obs
   | CaseNS conf cl w =>
       (* the trial status may only advance try -> trying, and only when the firmware really used the try
